@@ -6,6 +6,7 @@ import (
 	"errors"
 	"fmt"
 	"go/format"
+	"io"
 	"os"
 	"path/filepath"
 	"strings"
@@ -53,6 +54,24 @@ func (w *faultWriter) Write(p []byte) (int, error) {
 	return w.buf.Write(p)
 }
 
+// busyWriter is a healthy writer that renders other code inside Write before it looks at the
+// bytes it was handed (a caller's Write may do anything, e.g. log through another generated
+// snippet): the bytes must still be the ones of the render in progress.
+type busyWriter struct{ buf bytes.Buffer }
+
+func (w *busyWriter) Write(p []byte) (int, error) {
+	for _, nf := range []bool{true, false} {
+		d := jen.NewFile("decoy")
+		d.NoFormat = nf
+		d.Var().Id("decoy").Op("=").Lit("decoy decoy decoy")
+		_ = d.Render(io.Discard)
+		_ = d.Render(io.Discard)
+	}
+	_ = jen.Id("decoy").Op(":=").Lit(1).Render(io.Discard)
+	_ = jen.Id("decoy").Op(":=").Lit(2).RenderWithFile(io.Discard, jen.NewFile("decoy"))
+	return w.buf.Write(p)
+}
+
 type writerFault struct {
 	name    string
 	failAt  int
@@ -96,7 +115,7 @@ func noteWrap(entry string, err error) {
 
 type target struct {
 	name   string
-	render func(w *faultWriter) error
+	render func(w io.Writer) error
 	code   func() jen.Code // fragment entry points: the Code that is rendered (for the independent reference)
 }
 
@@ -112,15 +131,15 @@ func check(c Case) error {
 	valid := refErr == nil
 
 	// entry points working on a writer
-	targets := []target{{"File.Render", func(w *faultWriter) error { f, _ := build(); return f.Render(w) }, nil}}
+	targets := []target{{"File.Render", func(w io.Writer) error { f, _ := build(); return f.Render(w) }, nil}}
 	for i, n := range c.File.Body {
 		if n == nil || n.Kind != recipe.KStmt || i > 1 {
 			continue
 		}
 		n := n
 		targets = append(targets,
-			target{fmt.Sprintf("Statement.Render[%d]", i), func(w *faultWriter) error { return (&recipe.Builder{}).Stmt(n).Render(w) }, func() jen.Code { return (&recipe.Builder{}).Stmt(n) }},
-			target{fmt.Sprintf("Statement.RenderWithFile[%d]", i), func(w *faultWriter) error {
+			target{fmt.Sprintf("Statement.Render[%d]", i), func(w io.Writer) error { return (&recipe.Builder{}).Stmt(n).Render(w) }, func() jen.Code { return (&recipe.Builder{}).Stmt(n) }},
+			target{fmt.Sprintf("Statement.RenderWithFile[%d]", i), func(w io.Writer) error {
 				f, _ := build()
 				return (&recipe.Builder{}).Stmt(n).RenderWithFile(w, f)
 			}, nil},
@@ -132,8 +151,8 @@ func check(c Case) error {
 			return g
 		}
 		targets = append(targets,
-			target{fmt.Sprintf("Group.Render[%d]", i), func(w *faultWriter) error { return grp().Render(w) }, func() jen.Code { return jen.Block((&recipe.Builder{}).Stmt(n)) }},
-			target{fmt.Sprintf("Group.RenderWithFile[%d]", i), func(w *faultWriter) error { f, _ := build(); return grp().RenderWithFile(w, f) }, nil},
+			target{fmt.Sprintf("Group.Render[%d]", i), func(w io.Writer) error { return grp().Render(w) }, func() jen.Code { return jen.Block((&recipe.Builder{}).Stmt(n)) }},
+			target{fmt.Sprintf("Group.RenderWithFile[%d]", i), func(w io.Writer) error { f, _ := build(); return grp().RenderWithFile(w, f) }, nil},
 		)
 	}
 	// independent reference for fragment renders: gofmt of the raw text the same Code renders as
@@ -167,6 +186,13 @@ func check(c Case) error {
 			if want, ok := fragRef(tg.code()); ok && !bytes.Equal(want, okw.buf.Bytes()) {
 				return fmt.Errorf("%s: success reported, the writer received %q, but gofmt of the raw rendering of the same code is %q", tg.name, okw.buf.Bytes(), want)
 			}
+		}
+		if okErr == nil {
+			bw := &busyWriter{}
+			if err := tg.render(bw); err != nil || !bytes.Equal(bw.buf.Bytes(), okw.buf.Bytes()) {
+				return fmt.Errorf("%s into a writer that renders other code inside Write: err=%v, the writer received %q, reference %q", tg.name, err, bw.buf.Bytes(), okw.buf.Bytes())
+			}
+			cell(entry, "none (writer renders other code inside Write)", true)
 		}
 		for _, wf := range writerFaults {
 			w := &faultWriter{failAt: wf.failAt, partial: wf.partial}
@@ -231,7 +257,13 @@ func check(c Case) error {
 				}
 			}
 		}
-		if valid {
+		noFormat := false
+		for _, op := range c.File.Ops {
+			if op.Op == "NoFormat" {
+				noFormat = true
+			}
+		}
+		if valid && !noFormat {
 			// now break the tree and try again: Render and Save must fail and leave everything alone
 			f.Add(jen.Func().Lit(1).Op("}"))
 			w := &faultWriter{}
@@ -474,6 +506,10 @@ func TestC10(t *testing.T) {
 		for i := 0; i < n; i++ {
 			f.Body = append(f.Body, gen.Decl(rt, 2))
 		}
+		if rapid.IntRange(0, 2).Draw(rt, "noformat") == 0 {
+			f.Ops = append(f.Ops, recipe.FileOp{Op: "NoFormat"})
+			r.Class("noformat_file")
+		}
 		c := Case{File: f}
 		note(c)
 		return c
@@ -483,6 +519,11 @@ func TestC10(t *testing.T) {
 		n := rapid.IntRange(1, 2).Draw(rt, "nbody")
 		for i := 0; i < n; i++ {
 			f.Body = append(f.Body, gen.Tree(rt, 3, 4))
+		}
+		if rapid.IntRange(0, 3).Draw(rt, "noformat") == 0 {
+			// an unformatted File renders whatever the tree says: every tree is "valid" then
+			f.Ops = append(f.Ops, recipe.FileOp{Op: "NoFormat"})
+			r.Class("noformat_file")
 		}
 		c := Case{File: f}
 		if err := hx.Safe(func() error { note(c); return nil }); err != nil {
